@@ -90,10 +90,14 @@ impl BerHeader {
             n as usize
         } else {
             // Long form, X.690 pp 8.1.3.5
-            let mut ln = 0;
+            let mut ln = 0usize;
             for _ in 0..n & 0x7f {
-                ln =
-                    (ln << 8) + (*i.get(current).ok_or(Err::Incomplete(Needed::Unknown))? as usize);
+                let b = *i.get(current).ok_or(Err::Incomplete(Needed::Unknown))? as usize;
+                // A length which does not fit usize cannot fit the input
+                ln = ln
+                    .checked_mul(256)
+                    .ok_or(Err::Incomplete(Needed::Unknown))?
+                    + b;
                 current += 1;
             }
             ln
